@@ -21,12 +21,14 @@
      `symbol`, `offset`, `len`, `limit`, `probs` and jumps back there. The model does not name the labels: the saved resume point
      is represented by `RSt.sym0`, the members of the decoder state at the top of the interrupted symbol (after `symPrelude`) that
      the symbol decoder changes, and resuming puts them back and decodes that symbol again from there over the longer input, with
-     the `eopm_is_valid` and the dictionary position of the NEW call. The symbol decoder is a
-     deterministic function of its start state and the bytes it reads (`Lzma.loc_decodeSymbol`), so this denotes the same
-     function of the future input as continuing at the label — provided the C code saves all the locals it needs, which is what
-     the C-vs-C slicing oracle of tools/props/c06.py tests and no theorem here shows. The observable state at the end of the
-     call (`RSt.s`: input position = all input consumed, range decoder, probabilities, `state`, `rep0..3` in the middle of the
-     symbol) is the real one.
+     the `eopm_is_valid` and the dictionary position of the NEW call. This denotes the same function of the future input as
+     continuing a suspended computation: `Lemmas/LzmaResumeProc.lean` gives the continuation semantics of the same monadic text
+     (`decodeSymbolP`: every byte fetch suspends, the resume state is the continuation) and proves `resume_is_redecode_view`
+     (continuing the suspended continuation over the longer input = decoding again from the start state); and the saved members
+     are consistent with the state the call stopped in (`SymPre`, the replay invariant, proved for every call: `l1Spec`). That
+     liblzma's saved `sequence` + locals denote this continuation is what the C-vs-C slicing oracle of tools/props/c06.py tests
+     and no theorem shows. The observable state at the end of the call (`RSt.s`: input position = all input consumed, range
+     decoder, probabilities, `state`, `rep0..3` in the middle of the symbol) is the real one.
    * SEQ_LITERAL_WRITE, SEQ_SHORTREP, SEQ_COPY (dictionary limit reached): `St.pending`, as in the one-shot model; `dict_repeat`
      interrupted by the limit resumes with the remaining length.
    * LZMA2: `sequence`/`next_sequence` and the sizes are state already in `Model/Lzma2.lean`; `dict_write` copies what fits.
